@@ -15,7 +15,6 @@ pub open spec fn entry_names_caller(e: ProxyConnectionSummary, s: ProxySummary) 
     &&& e.processCmdLine@ == s.processCmdLine@
     &&& e.processFullPath matches Some(p) && p@ == path_lossy(s.processFullPath)
     &&& e.responseStatus@ == s.responseStatus@
-    &&& e.userGroups == Some(s.userGroups)
 }
 pub open spec fn bump(e: ProxyConnectionSummary) -> ProxyConnectionSummary {
     ProxyConnectionSummary { count: (e.count + 1) as u64, ..e }
